@@ -28,6 +28,7 @@ type Case struct {
 	// Monitor checks the property directly on the real code's outputs. It returns
 	// violations found for this case (independent of the Lean model's outputs).
 	Monitor    func(ops, impl []string) []Violation
+	NoShrinkMonitor bool // monitor verdicts depend on generator bookkeeping that does not survive op removal
 	NonTrivial bool
 	Shape      string // canonical shape key for distinctness counting
 	Tags       []string
@@ -200,7 +201,7 @@ func RunCases(suite string, cases []*Case, rep *Report) {
 					continue // one (shrunk) report per property and case
 				}
 				seen[v.Property] = true
-				if c.Exec != nil && len(rep.Violations) < 4*maxReported {
+				if c.Exec != nil && !c.NoShrinkMonitor && len(rep.Violations) < 4*maxReported {
 					prop := v.Property
 					has := func(o []string) *Violation {
 						im := c.Exec(o)
